@@ -231,7 +231,9 @@ func (e *Exec) inputSize() *Term {
 			}
 			if _, ok := types.Unalias(u.Elem()).Underlying().(*types.Struct); ok {
 				n, s := objHeap(u.Elem())
-				walk(Select(e.heapGet(n, s), v), u.Elem(), depth+1)
+				obj := e.vc.Define("in", Select(e.heapGet(n, s), v))
+				e.vc.Assume(True, invOf(u.Elem(), obj, e.st.ac))
+				walk(obj, u.Elem(), depth+1)
 			}
 		}
 	}
